@@ -130,16 +130,25 @@ def gen_actions(rng):
     if rng.random() < 0.3:
         # another spelling of the (case-insensitive) handshake headers
         hcfg['upgrade_spelling'] = rng.choice([1, 2])
+    if rng.random() < 0.3:
+        # response transformations: the client offers compression (the
+        # servers compress from 16 bytes on) and / or polls with JSONP
+        hcfg['transform'] = rng.choice(['gzip', 'deflate', 'jsonp',
+                                        'gzip+jsonp'])
     return acts, script, hcfg
 
 
 class Side:
     def __init__(self, kind, script, hcfg=None):
+        self.transform = (hcfg or {}).get('transform', '')
         self.sim = scen.make_sim(kind, server_kwargs={
             'ping_interval': PI, 'ping_timeout': PT,
-            'max_http_buffer_size': 2000},
+            'max_http_buffer_size': 2000, 'compression_threshold': 16},
             handler_cfg=dict(hcfg or {}, connect=script), policy='fifo')
         self.sim.upgrade_spelling = (hcfg or {}).get('upgrade_spelling', 0)
+        for enc in ('gzip', 'deflate'):
+            if enc in self.transform:
+                self.sim.poll_headers = {'Accept-Encoding': enc}
         self.R = hist.Runner(self.sim)
         self.ev_seen = 0
         self.dl_seen = 0
@@ -153,7 +162,12 @@ class Side:
         self.step_tickets = []
         op = a[0]
         if op == 'open':
-            s = R.open(a[1], autopoll=a[2], autopong=0)
+            s = R.open(a[1], autopoll=False, autopong=0)
+            if 'jsonp' in self.transform and a[1] == 'polling':
+                s.jsonp = 7
+            s.autopoll = a[2]
+            if a[2] and s.accepted and a[1] == 'polling':
+                R.poll(s)
             self.step_tickets.append(s.h.open_ticket)
             return
         if op == 'adv':
